@@ -62,6 +62,14 @@ Definition indent_filter (s : string) : string :=
   | first :: rest =>
       join (String nl "") (first :: map (fun l => if String.eqb l "" then l else ("    " ++ l)%string) rest)
   end.
+(* indent(width=n) *)
+Fixpoint spaces (n : nat) : string := match n with 0 => "" | S k => String " "%char (spaces k) end.
+Definition indent_n (n : nat) (s : string) : string :=
+  match split_on nl s with
+  | [] => ""
+  | first :: rest =>
+      join (String nl "") (first :: map (fun l => if String.eqb l "" then l else (spaces n ++ l)%string) rest)
+  end.
 
 (* pydjinni's concat filter *)
 Definition concat_filter (items : list val) (prefix postfix : string) : string :=
@@ -116,7 +124,11 @@ Section Eval.
                    end
         | v => attr_of v a
         end
-    | EItem e' k => match eval st k with VStr a => attr_of (eval st e') a | _ => VUndef end
+    | EItem e' k => match eval st k with
+                    | VStr a => attr_of (eval st e') a
+                    | VInt i => if Z.ltb i 0 then VUndef else nth (Z.to_nat i) (as_list (eval st e')) VUndef     (* list[i], i >= 0 *)
+                    | _ => VUndef
+                    end
     | EConcat l => VStr (fold_right (fun v acc => (to_str v ++ acc)%string) "" (evals l))
     | ECond c t f => if truthy (eval st c) then eval st t else match f with Some x => eval st x | None => VUndef end
     | ENot x => VBool (negb (truthy (eval st x)))
@@ -144,7 +156,8 @@ Section Eval.
     | EFilter name x args kwargs =>
         let v := eval st x in
         if String.eqb name "comment" then VStr (comment_filter (g_cstart g) (g_cend g) (g_cprefix g) (to_str v))
-        else if String.eqb name "indent" then VStr (indent_filter (to_str v))
+        else if String.eqb name "indent" then
+          VStr (match evals args with VInt w :: _ => indent_n (Z.to_nat w) (to_str v) | _ => indent_filter (to_str v) end)
         else if String.eqb name "concat" then
           VStr (concat_filter (as_list v) (match kw "prefix" kwargs with Some p => to_str p | None => "" end)
                               (match kw "postfix" kwargs with Some p => to_str p | None => "" end))
